@@ -235,9 +235,9 @@ theorem headOuts_spec (strides chans hs ws : List Nat) (heads : List Head) (hins
         · exact ih2 p hp
 
 /-- per-head facts assemble into the `Model.__init__` loop -/
-theorem initHeads_map (c : Cfg) (b : Built) (g : Head → Nat) (hs : List Head)
-    (h : ∀ hd ∈ hs, headInFor c.rate b.xIn b.dec.length (labels b.dec) c.minOs hd.os = .ok (g hd)) :
-    initHeads c b hs = .ok (hs.map g) := by
+theorem initHeads_map (b : Built) (g : Head → Nat) (hs : List Head)
+    (h : ∀ hd ∈ hs, headInFor b hd.os = .ok (g hd)) :
+    initHeads b hs = .ok (hs.map g) := by
   induction hs with
   | nil => rfl
   | cons hd hs ih =>
@@ -283,6 +283,31 @@ theorem decChan_upInterp_mono (bs : List DecBlock) (c : Nat) (fs l : List Nat)
           simp only [hc]
           obtain ⟨l', hl', hl⟩ := Res.bind_eq_ok.mp h
           rw [ih _ _ _ hl']; exact hl
+
+/-! ## the `head_configs` mapping is read by name -/
+
+theorem lookup_perm {β : Type} (k : String) {l₁ l₂ : List (String × β)} (p : l₁.Perm l₂)
+    (nd : l₁.Pairwise fun a b => a.1 ≠ b.1) : l₁.lookup k = l₂.lookup k := by
+  induction p with
+  | nil => rfl
+  | cons x _ ih =>
+    obtain ⟨a, b⟩ := x
+    simp only [List.lookup_cons]
+    rw [ih (List.pairwise_cons.mp nd).2]
+  | swap x y l =>
+    obtain ⟨a, b⟩ := x
+    obtain ⟨a', b'⟩ := y
+    have hne : a' ≠ a := (List.pairwise_cons.mp nd).1 (a, b) (by simp)
+    simp only [List.lookup_cons]
+    by_cases h1 : k = a
+    · subst h1
+      have : (k == a') = false := by simpa using fun h => hne h.symm
+      simp [this]
+    · have : (k == a) = false := by simpa using h1
+      simp [this]
+  | trans p₁ _ ih₁ ih₂ =>
+    rw [ih₁ nd]
+    exact ih₂ ((p₁.pairwise_iff (fun {a b} (h : a.1 ≠ b.1) => fun e => h e.symm)).mp nd)
 
 theorem minList_of_le (l : List Nat) (m : Nat) (h : ∀ x ∈ l, m ≤ x) : minList l m = m := by
   induction l with
